@@ -55,8 +55,13 @@ func ruleR31() *Rule {
 				if sp.Param == "" {
 					obj = fn.Params[0]
 				} else {
-					for _, p := range fn.Params {
-						if p.Name() == sp.Param {
+					// by type: the pointer-to-Struct parameter (its name is free)
+					for _, p := range fn.Params[1:] {
+						if pt, ok := p.Type().Underlying().(*types.Pointer); ok && isNamed(pt.Elem(), zapPkgPath, sp.Struct) {
+							if obj != nil {
+								obj = nil
+								break
+							}
 							obj = p
 						}
 					}
@@ -136,7 +141,7 @@ func ruleR31() *Rule {
 					eachInstr(fn, func(_ *ssa.BasicBlock, in ssa.Instruction) {
 						if st, ok := in.(*ssa.Store); ok {
 							if sn, f, _, ok := fieldOf(st.Addr); ok && sn == sp.Struct && f == "curChunkNum" {
-								if p, ok := st.Val.(*ssa.Parameter); !ok || p.Name() != "chunkNumber" {
+								if p, ok := st.Val.(*ssa.Parameter); !ok || canonParamName(p) != "chunkNumber" {
 									okKey = false
 								}
 							}
@@ -158,8 +163,11 @@ func ruleR31() *Rule {
 					return ok && sn == sl.typ && f == sl.field && root(base) == ssa.Value(recv)
 				}
 				tr := func(in ssa.Instruction, ev uint64, _ bool) []uint64 {
-					if st, ok := in.(*ssa.Store); ok && isSlot(st.Addr) && isZeroStructStore(st) {
-						return []uint64{ev | 1}
+					if st, ok := in.(*ssa.Store); ok && isSlot(st.Addr) {
+						// `slot = T{}` or `slot = T{f: v, ...}`: every field is replaced
+						if _, whole := wholeStructStore(st); whole {
+							return []uint64{ev | 1}
+						}
 					}
 					return nil
 				}
@@ -191,6 +199,47 @@ func ruleR31() *Rule {
 
 // ---------------------------------------------------------------------------
 // R32
+
+// lastHitRole: the captured variable `cell` receives result k of the per-term
+// merge routine (mergeTermFreqNormLocs / ...ByCopying return lastDocNum,
+// lastFreq, lastNorm first) — its role, whatever the variable is called.
+func lastHitRole(cell *ssa.Alloc) string {
+	if cell == nil {
+		return ""
+	}
+	role := ""
+	for _, st := range cellStores(cell) {
+		ex, ok := st.Val.(*ssa.Extract)
+		if !ok {
+			continue
+		}
+		call, ok := ex.Tuple.(*ssa.Call)
+		if !ok {
+			continue
+		}
+		f := call.Call.StaticCallee()
+		if f == nil || !(namedFn(f, "mergeTermFreqNormLocs") || namedFn(f, "mergeTermFreqNormLocsByCopying")) {
+			continue
+		}
+		r := ""
+		switch ex.Index {
+		case 0:
+			r = "lastDocNum"
+		case 1:
+			r = "lastFreq"
+		case 2:
+			r = "lastNorm"
+		}
+		if role != "" && role != r {
+			return "" // fed from different results: not one of the three
+		}
+		role = r
+	}
+	if role == "" {
+		return cell.Comment
+	}
+	return role
+}
 
 func ruleR32() *Rule {
 	return &Rule{
@@ -283,7 +332,7 @@ func ruleR32() *Rule {
 								subject = "cardinality"
 							case *ssa.UnOp:
 								if cc := cellOf(y.X); cc != nil {
-									subject = cc.Comment
+									subject = lastHitRole(cc)
 								}
 							case *ssa.Call:
 								if f := y.Call.StaticCallee(); f != nil {
@@ -295,7 +344,7 @@ func ruleR32() *Rule {
 								if (x.Op == token.EQL && towardsTrue) || (x.Op == token.NEQ && !towardsTrue) {
 									for _, side := range []ssa.Value{x.X, x.Y} {
 										if uu, ok := side.(*ssa.UnOp); ok {
-											if cc := cellOf(uu.X); cc != nil && cc.Comment == "lastDocNum" {
+											if cc := cellOf(uu.X); cc != nil && lastHitRole(cc) == "lastDocNum" {
 												found["lastDocNum"] = cond{"the single document is the last one accumulated", true}
 											}
 										}
@@ -335,7 +384,7 @@ func ruleR32() *Rule {
 					// what is encoded: the remembered norm and that document
 					normOK := false
 					if uu, ok := yes.Results[2].(*ssa.UnOp); ok {
-						if cc := cellOf(uu.X); cc != nil && cc.Comment == "lastNorm" {
+						if cc := cellOf(uu.X); cc != nil && lastHitRole(cc) == "lastNorm" {
 							normOK = true
 						}
 					}
